@@ -9,7 +9,9 @@
    so every theorem of the development that has the bundled premise SM2Facts, the separate premises P_prime / N_prime /
    Add_assoc / G_order_divides_n / G_multiples_finite of SM2/SM2GroupMin.v, or "prime sm2_p", holds UNCONDITIONALLY.
    The corollaries below are the original theorems applied to these facts; each statement is computed from the original
-   one (so it cannot drift from it) and the main ones are printed by Check. *)
+   one (so it cannot drift from it) and the main ones are printed by Check.
+   Print Assumptions is run once, on the tuple of ALL corollaries at the end of the file (the assumptions of a tuple are the
+   union of those of its components; 25 separate traversals of the whole development cost a minute, one costs seconds). *)
 From Coq Require Import List NArith ZArith Znumtheory.
 From GmsmVerif Require Import EC.ECAffine EC.SM2Curve SM2.SM2GroupMin Prime.SM2Primes Prime.SM2FactsProof.
 From GmsmVerif Require Props.C01 Props.C02 Props.C03 Props.C09 Props.C13.
@@ -23,116 +25,92 @@ Ltac unconditional thm := let T := type of (thm sm2_p_is_prime) in exact T.
 
 Theorem SM2Facts_hold : SM2Facts.
 Proof. exact SM2Facts_proved. Qed.
-Print Assumptions SM2Facts_hold.
 
 (* ---- C01: a signature made with d verifies under [d]G; verification on curve points is the standard's B1-B7 ---- *)
 Theorem C01_verify_complete_unconditional : ltac:(with_facts C01.C01_verify_complete).
 Proof. exact (C01.C01_verify_complete SM2Facts_proved). Qed.
-Print Assumptions C01_verify_complete_unconditional.
 Check C01_verify_complete_unconditional.
 
 Theorem C01_Sm2Sign_then_Sm2Verify_unconditional : ltac:(with_facts C01.C01_Sm2Sign_then_Sm2Verify).
 Proof. exact (C01.C01_Sm2Sign_then_Sm2Verify SM2Facts_proved). Qed.
-Print Assumptions C01_Sm2Sign_then_Sm2Verify_unconditional.
 
 Theorem C01_verify_is_standard_on_curve_unconditional : ltac:(with_facts C01.C01_verify_is_standard_on_curve).
 Proof. exact (C01.C01_verify_is_standard_on_curve SM2Facts_proved). Qed.
-Print Assumptions C01_verify_is_standard_on_curve_unconditional.
 
 Theorem C01_accepting_keys_listed_unconditional : ltac:(with_facts5 C01.C01_accepting_keys_listed).
 Proof.
   exact (C01.C01_accepting_keys_listed P_prime_holds Add_assoc_holds G_order_divides_n_holds G_multiples_finite_holds N_prime_holds).
 Qed.
-Print Assumptions C01_accepting_keys_listed_unconditional.
 
 (* ---- C02: Decrypt inverts Encrypt (raw and ASN.1); another key is refused or collides ---------------------------- *)
 Theorem C02_decrypt_encrypt_unconditional : ltac:(with_facts C02.C02_decrypt_encrypt).
 Proof. exact (C02.C02_decrypt_encrypt SM2Facts_proved). Qed.
-Print Assumptions C02_decrypt_encrypt_unconditional.
 Check C02_decrypt_encrypt_unconditional.
 
 Theorem C02_decryptAsn1_encryptAsn1_unconditional : ltac:(with_facts C02.C02_decryptAsn1_encryptAsn1).
 Proof. exact (C02.C02_decryptAsn1_encryptAsn1 SM2Facts_proved). Qed.
-Print Assumptions C02_decryptAsn1_encryptAsn1_unconditional.
 
 Theorem C02_other_key_rejected_or_collision_unconditional : ltac:(with_facts5 C02.C02_other_key_rejected_or_collision).
 Proof.
   exact (C02.C02_other_key_rejected_or_collision P_prime_holds Add_assoc_holds G_order_divides_n_holds G_multiples_finite_holds N_prime_holds).
 Qed.
-Print Assumptions C02_other_key_rejected_or_collision_unconditional.
 
 Theorem C02_shared_points_differ_unconditional : ltac:(with_facts5 C02.C02_shared_points_differ).
 Proof.
   exact (C02.C02_shared_points_differ P_prime_holds Add_assoc_holds G_order_divides_n_holds G_multiples_finite_holds N_prime_holds).
 Qed.
-Print Assumptions C02_shared_points_differ_unconditional.
 
 (* ---- C03: the curve object computes the group law --------------------------------------------------------------- *)
 Theorem C03_ScalarMult_is_smul_unconditional : ltac:(with_facts C03.C03_ScalarMult_is_smul).
 Proof. exact (C03.C03_ScalarMult_is_smul SM2Facts_proved). Qed.
-Print Assumptions C03_ScalarMult_is_smul_unconditional.
 Check C03_ScalarMult_is_smul_unconditional.
 
 Theorem C03_ScalarBaseMult_is_smul_unconditional : ltac:(with_facts C03.C03_ScalarBaseMult_is_smul).
 Proof. exact (C03.C03_ScalarBaseMult_is_smul SM2Facts_proved). Qed.
-Print Assumptions C03_ScalarBaseMult_is_smul_unconditional.
 
 Theorem C03_small_multiples_of_kG_unconditional : ltac:(with_facts C03.C03_small_multiples_of_kG).
 Proof. exact (C03.C03_small_multiples_of_kG SM2Facts_proved). Qed.
-Print Assumptions C03_small_multiples_of_kG_unconditional.
 
 Theorem C03_precomputed_table_correct_unconditional : ltac:(with_facts C03.C03_precomputed_table_correct).
 Proof. exact (C03.C03_precomputed_table_correct SM2Facts_proved). Qed.
-Print Assumptions C03_precomputed_table_correct_unconditional.
 
 Theorem C03_GenerateKey_model_unconditional : ltac:(with_facts C03.C03_GenerateKey_model).
 Proof. exact (C03.C03_GenerateKey_model SM2Facts_proved). Qed.
-Print Assumptions C03_GenerateKey_model_unconditional.
 
 (* the theorems that only needed "prime sm2_p" are now unconditional *)
 Theorem C03_Add_is_group_add_unconditional : ltac:(unconditional C03.C03_Add_is_group_add).
 Proof. exact (C03.C03_Add_is_group_add sm2_p_is_prime). Qed.
-Print Assumptions C03_Add_is_group_add_unconditional.
 Check C03_Add_is_group_add_unconditional.
 
 Theorem C03_Double_is_group_double_unconditional : ltac:(unconditional C03.C03_Double_is_group_double).
 Proof. exact (C03.C03_Double_is_group_double sm2_p_is_prime). Qed.
-Print Assumptions C03_Double_is_group_double_unconditional.
 
 Theorem C03_PointAdd_total_unconditional : ltac:(unconditional C03.C03_PointAdd_total).
 Proof. exact (C03.C03_PointAdd_total sm2_p_is_prime). Qed.
-Print Assumptions C03_PointAdd_total_unconditional.
 
 Theorem C03_PointDouble_total_unconditional : ltac:(unconditional C03.C03_PointDouble_total).
 Proof. exact (C03.C03_PointDouble_total sm2_p_is_prime). Qed.
-Print Assumptions C03_PointDouble_total_unconditional.
 
 Theorem C03_PointSub_total_unconditional : ltac:(unconditional C03.C03_PointSub_total).
 Proof. exact (C03.C03_PointSub_total sm2_p_is_prime). Qed.
-Print Assumptions C03_PointSub_total_unconditional.
 
 Theorem C03_PointAddMixed_total_unconditional : ltac:(unconditional C03.C03_PointAddMixed_total).
 Proof. exact (C03.C03_PointAddMixed_total sm2_p_is_prime). Qed.
-Print Assumptions C03_PointAddMixed_total_unconditional.
 
 Theorem C03_ToAffine_unconditional : ltac:(unconditional C03.C03_ToAffine).
 Proof. exact (C03.C03_ToAffine sm2_p_is_prime). Qed.
-Print Assumptions C03_ToAffine_unconditional.
 
 (* ---- C09: a certificate signed with an SM2 key verifies ------------------------------------------------------------ *)
 Theorem C09_created_verifies_sm2_unconditional : ltac:(with_facts C09.created_verifies_sm2).
 Proof. exact (C09.created_verifies_sm2 SM2Facts_proved). Qed.
-Print Assumptions C09_created_verifies_sm2_unconditional.
 
 (* ---- C13: both sides of the key exchange agree; the model is the standard's ---------------------------------------- *)
 Theorem C13_kx_agree_unconditional : ltac:(with_facts C13.C13_kx_agree_facts).
 Proof. exact (C13.C13_kx_agree_facts SM2Facts_proved). Qed.
-Print Assumptions C13_kx_agree_unconditional.
 Check C13_kx_agree_unconditional.
 
 Theorem C13_kx_is_standard_unconditional : ltac:(let T := type of (C13.C13_kx_is_standard P_prime_holds) in exact T).
 Proof. exact (C13.C13_kx_is_standard P_prime_holds). Qed.
-Print Assumptions C13_kx_is_standard_unconditional.
 
 (* ---- C14: Decompress (Compress P) = P for every point of the SM2 curve, no premise left --------------------------- *)
 Theorem C14_compress_decompress_sm2_unconditional :
@@ -143,4 +121,32 @@ Proof.
   - reflexivity.
   - vm_compute. discriminate.
 Qed.
-Print Assumptions C14_compress_decompress_sm2_unconditional.
+
+(* ---- all of the above depend on no axiom: one traversal for the tuple of every corollary -------------------------- *)
+Definition SM2Premises_all :=
+  (SM2Facts_hold,
+   C01_verify_complete_unconditional,
+   C01_Sm2Sign_then_Sm2Verify_unconditional,
+   C01_verify_is_standard_on_curve_unconditional,
+   C01_accepting_keys_listed_unconditional,
+   C02_decrypt_encrypt_unconditional,
+   C02_decryptAsn1_encryptAsn1_unconditional,
+   C02_other_key_rejected_or_collision_unconditional,
+   C02_shared_points_differ_unconditional,
+   C03_ScalarMult_is_smul_unconditional,
+   C03_ScalarBaseMult_is_smul_unconditional,
+   C03_small_multiples_of_kG_unconditional,
+   C03_precomputed_table_correct_unconditional,
+   C03_GenerateKey_model_unconditional,
+   C03_Add_is_group_add_unconditional,
+   C03_Double_is_group_double_unconditional,
+   C03_PointAdd_total_unconditional,
+   C03_PointDouble_total_unconditional,
+   C03_PointSub_total_unconditional,
+   C03_PointAddMixed_total_unconditional,
+   C03_ToAffine_unconditional,
+   C09_created_verifies_sm2_unconditional,
+   C13_kx_agree_unconditional,
+   C13_kx_is_standard_unconditional,
+   C14_compress_decompress_sm2_unconditional).
+Print Assumptions SM2Premises_all.
